@@ -239,7 +239,7 @@ class ImplSession:
         if kind == "made":
             run(h.connection_made, self.transport)
         elif kind == "data":
-            if self.dead or h._transport is None:
+            if self.dead or priv(h, "_transport") is None:
                 pass
             else:
                 exc = run(h.data_received, arg)
@@ -270,11 +270,41 @@ class ImplSession:
 
     def state(self):
         h = self.helper
-        st = {1: "hello", 2: "handshake", 3: "ready", 4: "closed"}[h._state]
-        buf = (h._buffer or b"")[:h._buffer_len] if h._buffer_len else b""
-        dn = h._decrypt_cipher._nonce if h._decrypt_cipher else 0
-        en = h._encrypt_cipher._nonce if h._encrypt_cipher else 0
+        st = {1: "hello", 2: "handshake", 3: "ready", 4: "closed"}[priv(h, "_state")]
+        blen = priv(h, "_buffer_len")
+        buf = (priv(h, "_buffer") or b"")[:blen] if blen else b""
+        dn = _counter(priv(h, "_decrypt_cipher"))
+        en = _counter(priv(h, "_encrypt_cipher"))
         return st, bytes(buf), dn, en
+
+
+def priv(obj, name):
+    """A private attribute of the implementation that the harness projects the state through.  When a clean-up renamed it
+    (prefix / suffix added), the one attribute whose name ends with the old name is taken instead; anything else is an
+    AttributeError (the correspondence then cannot be run: no-failing-input-found)."""
+    try:
+        return getattr(obj, name)
+    except AttributeError:
+        pass
+    key = name.strip("_")
+    names = [n for k in type(obj).__mro__ for n in getattr(k, "__slots__", ())] + list(getattr(obj, "__dict__", {}))
+    cands = sorted({n for n in names if n.strip("_").endswith(key) and hasattr(obj, n)})
+    if len(cands) != 1:
+        cands = sorted({n for n in names if key in n and hasattr(obj, n)})
+    if len(cands) == 1:
+        return getattr(obj, cands[0])
+    raise AttributeError(f"{type(obj).__name__} has no attribute {name} (candidates after a rename: {cands})")
+
+
+def _counter(cipher):
+    """The message counter of a cipher wrapper (its one integer attribute, whatever it is called); 0 before the handshake."""
+    if not cipher:
+        return 0
+    names = [n for k in type(cipher).__mro__ for n in getattr(k, "__slots__", ())] or list(getattr(cipher, "__dict__", {}))
+    ints = [getattr(cipher, n) for n in names if hasattr(cipher, n) and type(getattr(cipher, n)) is int]
+    if len(ints) != 1:
+        raise AssertionError(f"cannot tell the message counter of {type(cipher).__name__} (integer attributes: {len(ints)})")
+    return ints[0]
 
 
 def valid_psk():
